@@ -11,6 +11,7 @@ from harness import doc as D
 POOL = param("pool", ["steps", "BAD", "outline", "titles"])
 HOLE = param("hole", "x")
 FIX = param("fix", {})
+STOP = bool(param("stop", False))
 MEDIA = "text/x.cucumber.gherkin+plain"
 KEYWORD_TYPES = ("Unknown", "Context", "Action", "Outcome", "Conjunction")
 STEP_TYPES = ("Unknown", "Context", "Action", "Outcome")
@@ -138,6 +139,8 @@ def stream_agrees(ps: bool, pa: bool, pp: bool, s1: int, s2: int, s3: int) -> bo
     shapes = [pick(s1, POOL), pick(s2, POOL), pick(s3, POOL)]
     a = HOLE
     ge = GherkinEvents(GherkinEvents.Options(print_source=ps, print_ast=pa, print_pickles=pp))
+    if STOP:
+        ge.parser.stop_at_first_error = True
     seen_ids = []
     kept = []
     with sym.scanner_env(False):
@@ -170,7 +173,7 @@ def _compare(got, src, uri, exp_ast, exp_errs, w, ps, pa, pp, seen_ids):
                     return False
             if exp_errs is not None:
                 sym.reach("rejected")
-                want = [{"parseError": {"source": {"uri": uri, "location": e["location"]}, "message": e["message"]}} for e in exp_errs]
+                want = [{"parseError": {"source": {"uri": uri, "location": e["location"]}, "message": e["message"]}} for e in (exp_errs[:1] if STOP else exp_errs)]
                 return astgen.same(got, want)
             sym.reach("accepted")
             gd = dict(exp_ast)
